@@ -20,7 +20,7 @@ use rustc_hir as hir;
 use rustc_hir::def::{DefKind, Res};
 use rustc_hir::def_id::{DefId, LocalDefId, LOCAL_CRATE};
 use rustc_middle::mir::{self, interpret::Scalar, ConstValue};
-use rustc_middle::ty::{self, print::with_no_trimmed_paths, Ty, TyCtxt, TypingEnv};
+use rustc_middle::ty::{self, print::with_no_trimmed_paths, Ty, TyCtxt, TypeVisitableExt, TypingEnv};
 use std::collections::HashMap;
 use std::fmt::Write as _;
 
@@ -149,6 +149,21 @@ impl<'tcx> Dumper<'tcx> {
             return i;
         }
         let tcx = self.tcx;
+        // evaluate unevaluated array lengths (`[u8; SOME_CONST]`) where that is possible
+        if let ty::Array(_, len) = t.kind() {
+            if len.try_to_target_usize(tcx).is_none() && !t.has_non_region_param() {
+                if let Ok(n) = tcx.try_normalize_erasing_regions(
+                    TypingEnv::fully_monomorphized(),
+                    rustc_middle::ty::Unnormalized::new_wip(t),
+                ) {
+                    if n != t {
+                        let id = self.ty(n);
+                        self.ty_ids.insert(t, id);
+                        return id;
+                    }
+                }
+            }
+        }
         let ptr_bits = tcx.data_layout.pointer_size().bits();
         let j = match *t.kind() {
             ty::Bool => J::Obj(vec![("k", s("bool"))]),
